@@ -24,7 +24,7 @@ fn vp_native_for_url_matrix_body() {
                 let url = Url::parse(&format!("{}://{}/p", scheme, h)).unwrap();
                 let host = url.host_str().unwrap().to_string();
                 let got = s.for_url(&url).cloned();
-                cases += 1;
+                cases += 1; crate::verif_native_watchdog::progress();
                 let bypassed = bypass_spec(&host, e1) || bypass_spec(&host, e2);
                 let want = if bypassed { None } else { match scheme { "http" => Some(http.clone()), "https" => Some(https.clone()), _ => None } };
                 assert_eq!(got, want, "url {} no_proxy [{:?}, {:?}]", url, e1, e2);
@@ -56,7 +56,7 @@ fn vp_native_from_env_matrix_body() {
         let u1 = Url::parse("http://h.test/").unwrap(); let u2 = Url::parse("https://h.test/").unwrap();
         assert_eq!(s.for_url(&u1).cloned(), want_http, "http_proxy={:?} all_proxy={:?} HTTP_PROXY={:?}", hp, ap, up);
         assert_eq!(s.for_url(&u2).cloned(), want_https, "https via all_proxy={:?}", ap);
-        cases += 1;
+        cases += 1; crate::verif_native_watchdog::progress();
     } } }
     // all eight variables: {unset, empty, blank, valid http, valid https, socks, garbage} for each lower-case proxy variable, a reduced
     // domain for the upper-case spellings; NO_PROXY / no_proxy over {unset, empty, *, matching host}
@@ -81,7 +81,7 @@ fn vp_native_from_env_matrix_body() {
             let u = Url::parse(url).unwrap();
             let expect = if disabled || (bypass_h && u.host_str() == Some("h.test")) { None } else { want.clone() };
             assert_eq!(s.for_url(&u).cloned(), expect, "{} with http_proxy={:?} https_proxy={:?} all_proxy={:?} no_proxy={:?} HTTP_PROXY={:?} HTTPS_PROXY={:?} ALL_PROXY={:?} NO_PROXY={:?}", url, hp, sp, ap, np, hpu, spu, apu, npu);
-            cases += 1;
+            cases += 1; crate::verif_native_watchdog::progress();
         }
     } } } } } } } }
     // NO_PROXY tokenisation
@@ -96,7 +96,7 @@ fn vp_native_from_env_matrix_body() {
             let bypassed = bypass_spec(host, &norm(a)) || bypass_spec(host, &norm(b));
             let got = s.for_url(&Url::parse(&format!("http://{}/", host)).unwrap()).is_some();
             assert_eq!(got, !bypassed, "NO_PROXY={:?},{:?} host {}", a, b, host);
-            cases += 1;
+            cases += 1; crate::verif_native_watchdog::progress();
         }
     } }
     clear();
